@@ -1,7 +1,138 @@
-(* C09 — pipeline placeholder; replaced by the real statements *)
-From Gdsl.Model Require Import Base NodeOps.
-From Gdsl.Proofs Require Import NodeLemmas.
+(* C09 — search_cycle returns a genuine cycle through the root iff one exists.
+   Model: coq/model/Search.v, entry point search_path with cycle = true (root not pre-visited, target := the
+   root's key), kinds KBfs / KPfsMin / KPfsMax (worklist machine) and KDfs (recursive machine), any direction.
+   Directed: IsPath root p root with p non-empty = a path of one or more accepted stored edges from the root back
+   to it; NoDup of the targets = no intermediate node twice (hence no edge occurrence twice: the root is entered by
+   the last edge only). Undirected (d = DAdj): the same statement reads "a closed walk of accepted half-edges". *)
+From Gdsl.Model Require Import Spec Callback.
+From Gdsl.Proofs Require Import Worklist Bfs Descend SearchGlue.
 
-Theorem C09_placeholder_to_nil : forall (E : Type) v, to_ v (@nil (nat * E)) = [].
-Proof. exact to_nil. Qed.
-Print Assumptions C09_placeholder_to_nil.
+(* breadth-/priority-first: a returned cycle starts and ends at the root, consists of accepted stored edges joined end to start, and its targets are pairwise distinct *)
+Theorem c09_cycle_sound_bfs_pfs :
+  forall (K V E : Type) (keqb : K -> K -> bool),
+       KeqbSpec keqb ->
+       forall (CB : Type) (cb : CB -> heap K V E -> edge E -> CB * heap K V E * bool)
+         (accept : edge E -> bool) (vleb : V -> V -> bool) (h : heap K V E),
+       Wf h ->
+       KeysInj h ->
+       PureCb h cb accept ->
+       forall (d : dir) (root : nat),
+       root < size h ->
+       forall (c0 : CB) (k : kind) (fuel : nat) (t : option K) (st : sst K V E CB) (p : list (edge E)),
+       k <> KDfs ->
+       search_path keqb cb vleb k d fuel h c0 root t true = (st, RPath p) ->
+       IsPath h d accept root p root /\ p <> [] /\ NoDup (map (edst (E:=E)) p).
+Proof. exact wlq_cycle_sound. Qed.
+Print Assumptions c09_cycle_sound_bfs_pfs.
+
+(* breadth-/priority-first: None only if no path of one or more accepted edges leads from the root back to it *)
+Theorem c09_cycle_complete_bfs_pfs :
+  forall (K V E : Type) (keqb : K -> K -> bool),
+       KeqbSpec keqb ->
+       forall (CB : Type) (cb : CB -> heap K V E -> edge E -> CB * heap K V E * bool)
+         (accept : edge E -> bool) (vleb : V -> V -> bool) (h : heap K V E),
+       Wf h ->
+       KeysInj h ->
+       PureCb h cb accept ->
+       forall (d : dir) (root : nat),
+       root < size h ->
+       forall (c0 : CB) (k : kind) (fuel : nat) (t : option K) (st : sst K V E CB),
+       k <> KDfs ->
+       search_path keqb cb vleb k d fuel h c0 root t true = (st, RNone E) -> ~ ReachPlus h d accept root root.
+Proof. exact wlq_cycle_complete. Qed.
+Print Assumptions c09_cycle_complete_bfs_pfs.
+
+(* depth-first: same soundness *)
+Theorem c09_cycle_sound_dfs :
+  forall (K V E : Type) (keqb : K -> K -> bool),
+       KeqbSpec keqb ->
+       forall (CB : Type) (cb : CB -> heap K V E -> edge E -> CB * heap K V E * bool)
+         (accept : edge E -> bool) (vleb : V -> V -> bool) (h : heap K V E),
+       Wf h ->
+       KeysInj h ->
+       PureCb h cb accept ->
+       forall (d : dir) (root : nat),
+       root < size h ->
+       forall (c0 : CB) (fuel : nat) (t : option K) (st : sst K V E CB) (p : list (edge E)),
+       search_path keqb cb vleb KDfs d fuel h c0 root t true = (st, RPath p) ->
+       IsPath h d accept root p root /\ p <> [] /\ NoDup (map (edst (E:=E)) p).
+Proof. exact dfs_cycle_sound. Qed.
+Print Assumptions c09_cycle_sound_dfs.
+
+(* depth-first: same completeness *)
+Theorem c09_cycle_complete_dfs :
+  forall (K V E : Type) (keqb : K -> K -> bool),
+       KeqbSpec keqb ->
+       forall (CB : Type) (cb : CB -> heap K V E -> edge E -> CB * heap K V E * bool)
+         (accept : edge E -> bool) (vleb : V -> V -> bool) (h : heap K V E),
+       Wf h ->
+       KeysInj h ->
+       PureCb h cb accept ->
+       forall (d : dir) (root : nat),
+       root < size h ->
+       forall (c0 : CB) (fuel : nat) (t : option K) (st : sst K V E CB),
+       search_path keqb cb vleb KDfs d fuel h c0 root t true = (st, RNone E) ->
+       ~ ReachPlus h d accept root root.
+Proof. exact dfs_cycle_complete. Qed.
+Print Assumptions c09_cycle_complete_dfs.
+
+(* the breadth-first cycle has the fewest possible edges *)
+Theorem c09_bfs_cycle_shortest :
+  forall (K V E : Type) (keqb : K -> K -> bool),
+       KeqbSpec keqb ->
+       forall (CB : Type) (cb : CB -> heap K V E -> edge E -> CB * heap K V E * bool)
+         (accept : edge E -> bool) (vleb : V -> V -> bool) (h : heap K V E),
+       Wf h ->
+       KeysInj h ->
+       PureCb h cb accept ->
+       forall (d : dir) (root : nat),
+       root < size h ->
+       forall (c0 : CB) (fuel : nat) (t : option K) (st : sst K V E CB) (p : list (edge E)),
+       search_path keqb cb vleb KBfs d fuel h c0 root t true = (st, RPath p) ->
+       forall q : list (edge E), q <> [] -> IsPath h d accept root q root -> length p <= length q.
+Proof. exact bfs_cycle_shortest. Qed.
+Print Assumptions c09_bfs_cycle_shortest.
+
+(* never the unwrap() panic of backtrack_edge_tree *)
+Theorem c09_no_panic_bfs_pfs :
+  forall (K V E : Type) (keqb : K -> K -> bool),
+       KeqbSpec keqb ->
+       forall (CB : Type) (cb : CB -> heap K V E -> edge E -> CB * heap K V E * bool)
+         (accept : edge E -> bool) (vleb : V -> V -> bool) (h : heap K V E),
+       Wf h ->
+       KeysInj h ->
+       PureCb h cb accept ->
+       forall (d : dir) (root : nat),
+       root < size h ->
+       forall (c0 : CB) (k : kind) (fuel : nat) (t : option K) (cyc : bool),
+       k <> KDfs -> snd (search_path keqb cb vleb k d fuel h c0 root t cyc) <> RPanic E.
+Proof. exact wlq_no_panic. Qed.
+Print Assumptions c09_no_panic_bfs_pfs.
+
+(* never the unwrap() panic of backtrack_edge_tree (depth-first) *)
+Theorem c09_no_panic_dfs :
+  forall (K V E : Type) (keqb : K -> K -> bool),
+       KeqbSpec keqb ->
+       forall (CB : Type) (cb : CB -> heap K V E -> edge E -> CB * heap K V E * bool)
+         (accept : edge E -> bool) (vleb : V -> V -> bool) (h : heap K V E),
+       Wf h ->
+       KeysInj h ->
+       PureCb h cb accept ->
+       forall (d : dir) (root : nat),
+       root < size h ->
+       forall (c0 : CB) (fuel : nat) (t : option K) (cyc : bool),
+       snd (search_path keqb cb vleb KDfs d fuel h c0 root t cyc) <> RPanic E.
+Proof. exact dfs_no_panic. Qed.
+Print Assumptions c09_no_panic_dfs.
+
+
+(* non-vacuity, including the closing self-loop that used to be returned twice (D3) *)
+Example c09_nonvacuous :
+  let ops : list (op nat nat nat) :=
+    [ONew 0 0; ONew 1 0; ONew 2 0; OConnect 0 1 10; OConnect 0 0 11; OConnect 1 2 12; OConnect 2 0 13] in
+  let h := fst (run_d Nat.eqb ops) in
+  let cb := (fun (c : unit) h' (_ : edge nat) => (c, h', true)) in
+  snd (search_path Nat.eqb cb Nat.leb KBfs DOut 100 h tt 0 None true) = RPath [(0, 0, 11)] /\
+  snd (search_path Nat.eqb cb Nat.leb KDfs DOut 100 h tt 0 None true) = RPath [(0, 1, 10); (1, 2, 12); (2, 0, 13)] /\
+  snd (search_path Nat.eqb cb Nat.leb KBfs DOut 100 h tt 1 None true) = RPath [(1, 2, 12); (2, 0, 13); (0, 1, 10)].
+Proof. vm_compute. auto. Qed.
